@@ -23,10 +23,13 @@ PROPS = {
     'C12': {
         'group': 'trs',
         'level': 'proof',
-        'explanation': 'Proved so far: every township/range < 1000 and section < 100 in every encoding and default yields its canonical component '
-                       '(finite domain closed by vm_compute, lifted by forallb_forall); empty input is undefined. Full statements of construct/decompose/'
-                       'idempotence/strictness are in Spec/C12Spec.v; the unproved ones are carried by exhaustive-mutation correspondence and an independent oracle. '
-                       'Tied to trs.py by regenerated patterns/placeholders + differential execution.',
+        'explanation': 'Proved for EVERY string (no bound): TRS(x).trs is either the error TRS or x split into its three components, each at most '
+                       'case-normalised (C12_strict, via TRS_trs_spec); wrapping again is idempotent for every string and None (C12_idem); from_twprgesec on any '
+                       'township/range < 1000, section < 100, any encoding and default source yields the canonical string (C12_construct) whose dictionary decomposes '
+                       'to exactly those components (C12_decompose); empty means undefined. The proofs invert every complete path of the regenerated unpacker pattern '
+                       '(Engine/RegexSpec.v all-paths semantics + Proofs/C12/Match.v), prove completeness by constructing a path, and uniqueness of the decomposition '
+                       '(prefix code); finite number domains are closed by vm_compute sweeps lifted with forallb_forall. Equality/hash of TRS objects is outside the '
+                       'model (checked by the oracle on the real code only). Tied to trs.py by regenerated patterns/placeholders + differential execution.',
     },
 }
 
